@@ -107,7 +107,13 @@ def requestOK (m : PduMeta) : Bool :=
   | .some rt rc cf sf seqOK =>
     seqOK && specPairs.contains (m.name, rt) && respCmdOK m.cmd rc &&
     match metaOf rt with
-    | some mr => mr.getSeq == sf && mr.resp == .none &&
+    | some mr =>
+        -- the sequence identifier lands in the field the response's accessors use; for a three-word
+        -- sequence number (SGIP 1.2 §3.4: "the sequence number of a response must be the same as that of
+        -- the corresponding command") every word is the request's word at the same position
+        (mr.getSeq == sf || (mr.getSeq == sf ++ ".2" && m.seqWords.length == 3)) &&
+        (m.seqWords == [] || m.seqWords == [(0, some 0), (1, some 1), (2, some 2)]) &&
+        (m.pkg != "sgip12" || m.seqWords.length == 3) && mr.resp == .none &&
         (match mr.cmd, rc with
          | .const c, .const r => c == r
          | .hdrOr f allowed d, .byReq _ table d' => f == cf && d == d' && table.all (fun kv => allowed.contains kv.2)
